@@ -15,14 +15,14 @@ import (
 )
 
 type Spec struct {
-	Kind     string // "application" | "deployment"
-	Prefix   string // "asmv1" (root written as asmv1:assembly, like mage.exe) | "default" (xmlns="urn:...asm.v1" on the root)
-	Deps     int    // number of dependency/file entries
-	BOM      bool
-	Decl     bool   // <?xml version="1.0" encoding="utf-8"?>
-	EOL      string // "\r\n" | "\n"
-	Token    bool   // assemblyIdentity already carries a publicKeyToken attribute
-	Comment  bool   // a comment and a processing-free text-only element with entity references
+	Kind    string // "application" | "deployment"
+	Prefix  string // "asmv1" (root written as asmv1:assembly, like mage.exe) | "default" (xmlns="urn:...asm.v1" on the root)
+	Deps    int    // number of dependency/file entries
+	BOM     bool
+	Decl    bool   // <?xml version="1.0" encoding="utf-8"?>
+	EOL     string // "\r\n" | "\n"
+	Token   bool   // assemblyIdentity already carries a publicKeyToken attribute
+	Comment bool   // a comment and a processing-free text-only element with entity references
 }
 
 func (s Spec) Name() string {
